@@ -401,6 +401,22 @@ Definition read_rec (r : krec) (ts : N) : read_result :=
 Definition read_at (st : store) (k : list N) (ts : N) : read_result :=
   match find_key st k with Some r => read_rec r ts | None => RValue None end.
 
+(* rollback markers (a derived layer: the abstract store itself keeps data writes only): rolling back a prewrite lock
+   leaves a rollback record (key, start ts) on that key, which refuses a late prewrite of the same (key, start ts) *)
+Definition marker_of (st0 : store) (sp : N) (r : krec) : list (list N * N) :=
+  match k_lock r with
+  | Some l => if (l_start l <=? sp) && negb (is_pess l) then
+                match committed_at st0 (l_primary l) (l_start l) with
+                | None => [(k_key r, l_start l)]
+                | Some _ => []
+                end
+              else []
+  | None => []
+  end.
+Definition markers (st0 : store) (sp : N) : list (list N * N) := flat_map (marker_of st0 sp) st0.
+Definition late_prewrite_accepted (ms : list (list N * N)) (k : list N) (t : N) : bool :=
+  negb (existsb (fun m => bytes_eqb (fst m) k && (snd m =? t)) ms).
+
 (* ------------------------------------------------------------------ well-formed lock populations *)
 Fixpoint sorted_keys (st : store) : bool :=
   match st with
